@@ -6,6 +6,7 @@
 import InjModel.Generated.Fns
 import InjModel.Lemmas.Rt
 import InjModel.Lemmas.X86
+import InjModel.Model.Machine
 namespace Inj.Tie
 open Inj Inj.Rt
 
@@ -80,7 +81,73 @@ theorem T_x86_boolStub (mode : Mode) (jit : Nat) (v : Bool) (os : Os) (h : jit +
   rw [run_bind_ok _ _ _ _ _ (T_x86_inject mode _ jit os hl), run_pure, boolStub_len]
   rfl
 
+/-- `protected_region_size(addr, len, 4096)` as translated = the length of `Machine.protectSpan`:
+    the pages from the one holding `addr` to the one holding the last patched byte. -/
+theorem T_x86_region (mode : Mode) (addr len : Nat) (h : addr + len + 4096 < 18446744073709551616) (hl : 1 ≤ len) :
+    GenX86.protected_region_size mode addr len 4096 = Res.ok (Machine.protectSpan addr len).2 := by
+  have e1 : usub 64 mode 4096 1 = Res.ok 4095 := usub64_ok _ _ _ (by omega) (by omega)
+  have e2 : uadd 64 mode addr (max len 1) = Res.ok (addr + len) := by
+    rw [Nat.max_eq_left hl]; exact uadd64_ok _ _ _ (by omega)
+  have e3 : uadd 64 mode (addr + len) 4096 = Res.ok (addr + len + 4096) := uadd64_ok _ _ _ (by omega)
+  have e4 : usub 64 mode (addr + len + 4096) 1 = Res.ok (addr + len + 4095) := by
+    rw [usub64_ok _ _ _ (by omega) (by omega)]; congr 1
+  have eu : unot 64 4095 = 18446744073709551615 - 4095 := by simp [unot]
+  have ple : addr / 4096 * 4096 ≤ (addr + len + 4095) / 4096 * 4096 := by omega
+  have e5 : usub 64 mode ((addr + len + 4095) / 4096 * 4096) (addr / 4096 * 4096) =
+      Res.ok ((addr + len + 4095) / 4096 * 4096 - addr / 4096 * 4096) := usub64_ok _ _ _ ple (by omega)
+  rw [GenX86.protected_region_size, e1, Res.bind_ok]
+  show (do let t_2 ← uadd 64 mode addr (max len 1); let t_3 ← uadd 64 mode t_2 4096; let t_4 ← usub 64 mode t_3 1
+           let t_5 ← usub 64 mode 4096 1
+           let t_6 ← usub 64 mode (band t_4 (unot 64 t_5)) (band addr (unot 64 4095)); pure t_6 : Res Nat) = _
+  rw [e2, Res.bind_ok, e3, Res.bind_ok, e4, Res.bind_ok, e1, Res.bind_ok, eu]
+  unfold band
+  rw [and_pagemask addr (by omega), and_pagemask (addr + len + 4095) (by omega), e5]
+  simp [Machine.protectSpan, pageUp, pageStart, pageSize]
+
+/-- `make_memory_writable_and_executable_linux` as translated: `sysconf`, then one `mprotect` of exactly
+    `Machine.protectSpan func len` with PROT_READ|WRITE|EXEC. -/
+theorem T_x86_mprotect (mode : Mode) (func len : Nat) (log : List (String × List Val)) (tail : List Val)
+    (h : func + len + 4096 < 18446744073709551616) (hl : 1 ≤ len) :
+    run (GenX86.make_memory_writable_and_executable_linux mode func len)
+        { answers := Val.n 4096 :: Val.n 0 :: tail, log := log } =
+      (Res.ok (), { answers := tail, log := log ++
+        [("sysconf", [Val.n 30]),
+         ("mprotect", [Val.n ((Machine.protectSpan func len).1 : Nat), Val.n ((Machine.protectSpan func len).2 : Nat), Val.n 7])] }) := by
+  have hp : castSU 64 (4096 : Int) = 4096 := by decide
+  have e1 : usub 64 mode 4096 1 = Res.ok 4095 := usub64_ok _ _ _ (by omega) (by omega)
+  have eu : unot 64 4095 = 18446744073709551615 - 4095 := by simp [unot]
+  rw [GenX86.make_memory_writable_and_executable_linux]
+  rw [run_bind_ok _ _ _ _ _ (run_extI_cons _ _ _ _ _)]
+  rw [hp, run_bind_lift_ok _ _ _ _ e1]
+  rw [run_bind_lift_ok _ _ _ _ (T_x86_region mode func len h hl)]
+  rw [run_bind_ok _ _ _ _ _ (run_extI_cons _ _ _ _ _)]
+  simp only [bne_self_eq_false, Bool.false_eq_true, if_false, run_pure, eu, band, and_pagemask func (by omega)]
+  simp [Machine.protectSpan, pageStart, pageSize, sbor, castSU, wrapS]
+
+/-- `patch_function(func, patch)` (Linux) as translated performs exactly the OS-visible steps of
+    `Machine.patchFunction`: mprotect of `protectSpan func len` with rwx, one raw copy of `patch` to
+    `func`, one flush of `[func, func+len)` — after asking `sysconf` for the page size. -/
+theorem T_x86_patch_function (mode : Mode) (func : Nat) (patch : List Nat) (log : List (String × List Val)) (tail : List Val)
+    (h : func + patch.length + 4096 < 18446744073709551616) (hl : 1 ≤ patch.length) :
+    run (GenX86.patch_function mode func patch) { answers := Val.n 4096 :: Val.n 0 :: tail, log := log } =
+      (Res.ok (), { answers := tail, log := log ++
+        [("sysconf", [Val.n 30]),
+         ("mprotect", [Val.n ((Machine.protectSpan func patch.length).1 : Nat), Val.n ((Machine.protectSpan func patch.length).2 : Nat), Val.n 7]),
+         ("copy_nonoverlapping", [Val.bs patch, Val.n func, Val.n patch.length]),
+         ("__clear_cache", [Val.n func, Val.n ((func + patch.length : Nat) : Int)])] }) := by
+  rw [GenX86.patch_function, GenX86.make_memory_writable_and_executable]
+  have h1 := T_x86_mprotect mode func patch.length log tail h hl
+  have h2 : run (GenX86.make_memory_writable_and_executable_linux mode func patch.length >>= fun _ => (pure () : M Unit))
+      { answers := Val.n 4096 :: Val.n 0 :: tail, log := log } = _ := run_bind_ok _ _ _ _ _ h1
+  rw [run_pure] at h2
+  rw [run_bind_ok _ _ _ _ _ h2]
+  rw [run_bind_ok _ _ _ _ _ (T_x86_inject mode patch func _ (by omega)), run_pure]
+  simp
+
 end Inj.Tie
+#print axioms Inj.Tie.T_x86_mprotect
+#print axioms Inj.Tie.T_x86_patch_function
+#print axioms Inj.Tie.T_x86_region
 #print axioms Inj.Tie.T_x86_boolStub
 #print axioms Inj.Tie.T_x86_genBranch
 #print axioms Inj.Tie.T_x86_inject
